@@ -51,6 +51,8 @@ func typeUsageMatrix(emit emitFn) {
 		{"allOf", "{ // {allOf: \"@t\"}\n  \"z\": 1\n}\n"},
 		{"type-rule", "{\n  \"k\": 1 // {type: \"@t\"}\n}\n"},
 		{"shortcut-key", "{\n  @t: 1\n}\n"},
+		{"nested-shortcut-key", "{\n  \"x\": {\n    @t: 1\n  }\n}\n"},
+		{"shortcut-key-in-array-item", "[\n  {\n    \"y\": {\n      @t: 1\n    }\n  }\n]\n"},
 		{"additionalProperties", "{ // {additionalProperties: \"@t\"}\n}\n"},
 		{"or-rule", "{\n  \"k\": 1 // {or: [\"@t\", \"string\"]}\n}\n"},
 		{"nested-array-property", "{\n  \"k\": [\n    @t\n  ]\n}\n"},
